@@ -14,13 +14,14 @@ def sh(cmd, cwd=None, timeout=3600):
 
 def main():
     pid, which = sys.argv[1], sys.argv[2]
-    wt = f"/tmp/wt/{pid}"
+    wt = os.environ.get("SEED_WT_ROOT", "/tmp/wt") + f"/{pid}"
     pid = os.environ.get("SEED_PROPERTY", pid)  # the worktree may have been shared by two properties
     checks = sys.argv[3:] or [pid]
     seed = f"{wt}/_seed/{which}"
     patch = f"{seed}/patch.diff"
     demo = f"{seed}/demo_test.go"
-    meta = {"id": f"{pid}-{which}", "breaks_property": pid, "origin": "independent sub-agent given only the property text and a scratch worktree", "confirmed": {}}
+    suffix = os.environ.get("SEED_SUFFIX", "")
+    meta = {"id": f"{pid}-{which}{suffix}", "breaks_property": pid, "origin": "independent sub-agent given only the property text and a scratch worktree", "confirmed": {}}
     for f in (patch, demo):
         if not os.path.exists(f):
             print("missing", f); return 2
@@ -72,7 +73,7 @@ def main():
     notes = open(f"{seed}/notes.txt").read() if os.path.exists(f"{seed}/notes.txt") else ""
     meta["needs_to_manifest"] = notes.strip()[:1200]
     meta["what_was_run"] = [f"go test -run TestSeedDemo (without / with patch) in {wt}", f"tools_repotest.sh {wt} with patch", "git -C /repo apply; ./run.sh <check> quick; git -C /repo checkout -- ."]
-    dst = f"/verif/seeded/{pid}-{which}"
+    dst = f"/verif/seeded/{pid}-{which}{suffix}"
     os.makedirs(dst, exist_ok=True)
     shutil.copy(patch, f"{dst}/patch.diff")
     shutil.copy(demo, f"{dst}/demo_test.go")
